@@ -606,9 +606,10 @@ def s10():
            'committed in `/repo`. `tools/try_seed.sh <patch> <id> <tier>` repeats this for one seed; from session 3 on the seeds are applied in\n'
            'scratch worktrees instead and the checks pointed at them with `VERIF_REPO` (`tools/seed_regress.py`, which also re-runs every kept seed).\n\n'
            '%d seeds kept; %d reported as VIOLATION by the quick tier of their property\'s check (several only after the check was\n'
-           'strengthened — noted in the last column, and in §11); %d not detected. Re-run status at the end of session 3: the 54 seeds of\n'
-           'rounds 3 and 4 and the earlier seeds of C01–C10 were run against the final engine; the earlier seeds of C11–C19 (26) were last\n'
-           'run before the session-3 engine changes (`tools/seed_regress.py --older` repeats them). C01 and C11 sample their bit-precise jobs\n'
+           'strengthened — noted in the last column, and in §11); %d not detected. Re-run status at the end of session 3: every kept seed was\n'
+           'run again in session 3 - the earlier seeds of C01–C10 after the engine repair, the 54 seeds of rounds 3 and 4 and the earlier seeds\n'
+           'of C11–C19 against the final engine (`tools/seed_regress.py --older`), the five patches re-created after the last two repairs\n'
+           'once more - and every one ended exit 1. C01 and C11 sample their bit-precise jobs\n'
            'in the quick tier, so for a few seeds detection depends on VERIF_SEED (noted per seed); the thorough tier runs every job.\n\n' % (n, n - len(miss), len(miss)),
            '| property | seed | change | result |\n|---|---|---|---|\n']
     for r in rows:
